@@ -612,7 +612,8 @@ def _entries():
 _last_raise = [None]
 
 
-def _check(entry, container, nan, neg, maskk, err, boxw=None, bad=False):
+def _check(entry, container, nan, neg, maskk, err, boxw=None, bad=False,
+           errma=False):
     """Run one entry point on one generated input; -> None or message.
     ``bad``: error and mask are given a wrong shape so that the call raises
     (the frame condition also covers calls that raise)."""
@@ -635,6 +636,13 @@ def _check(entry, container, nan, neg, maskk, err, boxw=None, bad=False):
             0.02 * np.arange(img.shape[0])[:, None]  # non-uniform
         if unit is not None:
             error = error * unit
+        elif errma:
+            # a MaskedArray error map with unmasked non-finite values
+            error = error.copy()
+            error[6, 7] = np.nan
+            error[28, 13] = np.inf
+            error = np.ma.MaskedArray(error,
+                                      mask=np.zeros(error.shape, bool))
     if bad:
         if error is not None:
             error = error[:-1, :-2]
@@ -748,18 +756,21 @@ def _run_entry(case):
         if entry == 'Background2D':
             boxw = ctx.choice('boxw', [11, 44, 22])
         bad = ctx.flag('badshape') if (err or maskk != 'none') else False
+        errma = ctx.flag('error-masked') if (
+            err and container != 'quantity') else False
         ctx.stats.obligations += 1
         cnt['n'] += 1
-        msg = _check(entry, container, nan, neg, maskk, err, boxw, bad)
+        msg = _check(entry, container, nan, neg, maskk, err, boxw, bad, errma)
         if _last_raise[0] is not None and not nan and maskk != 'int8' \
-                and not bad and container in ('ndarray', 'view'):
+                and not bad and not errma and container in ('ndarray',
+                                                            'view'):
             # vacuity guard: the plain call must actually run
             raise RuntimeError(f'entry {entry} raised on a plain input: '
                                f'{_last_raise[0]!r}')
-        if msg is None and not bad:
+        if msg is None and not bad and not errma:
             msg = _check_extra(entry, container, nan, neg, maskk, err)
         params = dict(entry=entry, container=container, nan=nan, neg=neg,
-                      mask=maskk, err=err, boxw=boxw, bad=bad)
+                      mask=maskk, err=err, boxw=boxw, bad=bad, errma=errma)
         if msg is None:
             ctx.stats.unsat += 1
         else:
@@ -829,8 +840,9 @@ def replay(f):
         g['key'] = p['key']
         return mod.replay(g)
     msg = _check(p['entry'], p['container'], p['nan'], p['neg'], p['mask'],
-                 p['err'], p.get('boxw'), bool(p.get('bad')))
-    if msg is None and not p.get('bad'):
+                 p['err'], p.get('boxw'), bool(p.get('bad')),
+                 bool(p.get('errma')))
+    if msg is None and not p.get('bad') and not p.get('errma'):
         msg = _check_extra(p['entry'], p['container'], p['nan'], p['neg'],
                            p['mask'], p['err'])
     return msg is not None, str(msg)
